@@ -2,7 +2,7 @@
    classes satisfy cc_ok; refutations and necessity witnesses by computation. *)
 From Coq Require Import ZifyBool.
 From Boltons Require Import Lib.Prelude Lib.C16_Text Spec.C16_Spec Model.C16_Model Gen.C16_Gen
-  Spec.C16_Re Proofs.C16_Text Proofs.C16_Regex Proofs.C16_Parse Proofs.C16_Fold Proofs.C16_FoldM Proofs.C16_Format Proofs.C16_ReEquiv.
+  Spec.C16_Re Proofs.C16_Text Proofs.C16_Regex Proofs.C16_Parse Proofs.C16_Fold Proofs.C16_FoldM Proofs.C16_Format Proofs.C16_Trailing Proofs.C16_ReEquiv.
 Open Scope N_scope.
 
 (* ---- CPython's classes are lawful -------------------------------------------------------- *)
